@@ -282,10 +282,13 @@ BinOp(op, a, b, S) ==     \* both operands evaluated; <<value, S'>>
 GetAttrV(c, k, S) ==
   CASE c.t = "hash" -> IF k.t # "str" THEN <<OOM, OomS(S)>>     \* other key types: C16
                        ELSE LET g == HashGet(c, k.s) IN IF g[1] THEN <<g[2], S>> ELSE <<Null, S>>
-    [] c.t = "arr"  -> LET n == CoerceNumber(k) IN
-                       IF IsOOM(n) \/ ~IsIntV(n) \/ k.t \notin {"num", "str"} THEN <<OOM, OomS(S)>>
-                       ELSE LET i == n.q \div Scale IN
-                            IF i >= 0 /\ i < Len(c.els) THEN <<c.els[i + 1], S>> ELSE <<Null, S>>
+    (* an index is a whole number or the decimal numeral of one; any other key finds nothing (value.go indexOf) *)
+    [] c.t = "arr"  -> LET i == IF k.t = "num" /\ k.q % Scale = 0 THEN k.q \div Scale
+                                ELSE IF k.t = "str" /\ k.s # <<>> /\ Len(k.s) <= 6 /\ (\A q \in 1..Len(k.s) : k.s[q] >= 48 /\ k.s[q] <= 57)
+                                     THEN DigitsVal(k.s, 0)
+                                ELSE 0 - 1 IN
+                       IF k.t = "oom" THEN <<OOM, OomS(S)>>
+                       ELSE IF i >= 0 /\ i < Len(c.els) THEN <<c.els[i + 1], S>> ELSE <<Null, S>>
     [] c.t \in {"null", "num", "str", "bool"} -> <<Null, S>>
     [] OTHER -> <<OOM, OomS(S)>>
 
